@@ -90,7 +90,7 @@ class Raw:
         self.pid = pid
 
     def __eq__(self, other):
-        return type(other) is Raw and other.pid == self.pid
+        return isinstance(other, Raw) and other.pid == self.pid
 
     def __hash__(self):
         return hash(("raw", self.pid))
@@ -100,6 +100,15 @@ class Raw:
 
     def __canon__(self):
         return ["Raw", self.pid]
+
+
+class RawU(Raw):
+    """A payload that is not hashable as it is given (like a JSON object or array among the items of a set)."""
+    __slots__ = ()
+    __hash__ = None
+
+    def __repr__(self):
+        return f"RawU({self.pid})"
 
 
 class LeafBase:
